@@ -27,6 +27,16 @@ func VerifDir() string {
 	return "/verif"
 }
 
+// OutDir is where evidence/ and replays/ are written (VERIF_OUT overrides
+// it for scratch runs against worktrees, so that they do not clobber the
+// evidence of /repo).
+func OutDir() string {
+	if d := os.Getenv("VERIF_OUT"); d != "" {
+		return d
+	}
+	return VerifDir()
+}
+
 // Tier returns "quick" or "thorough".
 func Tier() string {
 	if os.Getenv("VERIF_TIER") == "thorough" {
@@ -215,7 +225,7 @@ func (r *Run) Violation(key string, detail any) {
 	if len(r.viol) >= 20 {
 		return
 	}
-	dir := filepath.Join(VerifDir(), "replays")
+	dir := filepath.Join(OutDir(), "replays")
 	os.MkdirAll(dir, 0o755)
 	path := filepath.Join(dir, fmt.Sprintf("%s-%d.json", r.ID, len(r.viol)+1))
 	v := Violation{Key: key, Detail: detail, Replay: path}
@@ -316,7 +326,7 @@ func (r *Run) Finish(t Failer) {
 	if err != nil {
 		t.Fatalf("evidence marshal: %v", err)
 	}
-	dir := filepath.Join(VerifDir(), "evidence")
+	dir := filepath.Join(OutDir(), "evidence")
 	os.MkdirAll(dir, 0o755)
 	if err := os.WriteFile(filepath.Join(dir, r.ID+".json"), b, 0o644); err != nil {
 		t.Fatalf("evidence write: %v", err)
